@@ -53,11 +53,10 @@ type Conn struct {
 	DelayHook func(gid int64, matched bool) time.Duration
 	delays    int
 
-	stackBuf []byte
 }
 
 func New(local *net.UDPAddr) *Conn {
-	c := &Conn{local: local, matched: map[int64]bool{}, stackBuf: make([]byte, 1<<20)}
+	c := &Conn{local: local, matched: map[int64]bool{}}
 	c.cond = sync.NewCond(&c.mu)
 	return c
 }
@@ -203,6 +202,11 @@ type GInfo struct {
 	Text  string
 }
 
+var (
+	stackMu  sync.Mutex
+	stackBuf = make([]byte, 1<<18)
+)
+
 var blockedStates = map[string]bool{
 	"chan receive": true, "chan send": true, "select": true, "semacquire": true,
 	"sync.Mutex.Lock": true, "sync.RWMutex.RLock": true, "sync.RWMutex.Lock": true,
@@ -213,9 +217,9 @@ var blockedStates = map[string]bool{
 // ModuleGoroutines lists the goroutines that have a frame of the module under test (or were
 // created by it), except the calling goroutine.
 func (c *Conn) ModuleGoroutines() []GInfo {
-	c.mu.Lock()
-	buf := c.stackBuf
-	c.mu.Unlock()
+	stackMu.Lock()
+	defer stackMu.Unlock()
+	buf := stackBuf
 	var n int
 	for {
 		n = runtime.Stack(buf, true)
@@ -223,9 +227,7 @@ func (c *Conn) ModuleGoroutines() []GInfo {
 			break
 		}
 		buf = make([]byte, 2*len(buf))
-		c.mu.Lock()
-		c.stackBuf = buf
-		c.mu.Unlock()
+		stackBuf = buf
 	}
 	me := GoID()
 	var ret []GInfo
